@@ -17,6 +17,7 @@ import numpy as np
 from vt import alg, extract, symrun
 from vt.alg import Ctx, X
 from vt.core import Ob, Verdict, Refuted, Unsupported, DISCHARGED, REFUTED
+from . import ops
 from . import common, patches, fem
 
 PROP = "C02"
@@ -476,18 +477,21 @@ def build(tier, seed):
                   bound="7 call spellings x all ordered pairs", clause="cached geometric factors (weighted Jacobians, B, N) are those the functions compute for the requested arguments"))
     obs.append(Ob("canary.rank.TRI3.thermal", ob_rank, ("TRI3", "thermal", 0, True), "B", expect=REFUTED, timeout=300))
     functions = {q: extract.get(BP, q).describe() for q in ("GradUGradV", "UV", "LinearizedElasticity")}
+    GP_GROUPS = {'beam', 'parts', 'local', 'operators.K', 'operators.M'}
+    obs += ops.obligations('C02', tier, GP_GROUPS)
+    obs.append(ops.selfcheck_ob('C02'))
     return dict(
         obs=obs, level="other", min_obligations=60,
         explanation=("The real element operators run natively on exact values on 2-element conforming patches of every element type: "
                      "congruence form (PSD structure), symmetry and kernel inclusion are exact identities; absence of spurious modes and "
                      "positive-definiteness of the mass matrix are exact ranks of the assembled patch matrices (assembly by C03's contract). "
                      "Bounded in mesh (smallest meshes of the quantifier) and in material (one isotropic law)."),
-        trusted_base=["vt/npshim.py + vt/symrun.py", "C03 scatter-add contract", "C07: selected rules have positive weights", "C11: C SPD",
+        trusted_base=ops.GP_TRUST + ["vt/npshim.py + vt/symrun.py", "C03 scatter-add contract", "C07: selected rules have positive weights", "C11: C SPD",
                       "lemma: K = sum wJ B^T C B with wJ>0, C SPD is PSD and x^T K x = 0 iff B x = 0 at all points"],
         assumptions=["2-element patches only (rank is lower semicontinuous: generic geometry not proved, one affine instance per type)",
                      "Gauss points = the code's floats read exactly; total-mass clause within 2^-40",
                      "beam stiffness/mass matrices not covered"],
-        functions=functions,
+        functions={**functions, **ops.functions_under_contract(GP_GROUPS)},
         dropped=["imported code unmodified; module globals np / Gauss points / element tables replaced (see vt/symrun.py)"],
         not_attempted=["beam K/M (Euler-Bernoulli, Timoshenko)", "anisotropic laws", "larger meshes"],
     )
